@@ -179,6 +179,23 @@ def run_C09(run):
         run.gen_and_replay("MC_Expr", consts(VAL_EXPR, Family=fam), name="str-" + fam[3:], kind="eval")
 
 
+def run_C04(run):
+    q = run.tier == "quick"
+    # every call history of up to L calls on ONE compiled expression, for every
+    # expression of the pool of stateful constructs; iterators abandoned after
+    # every prefix; contexts in the same and in another document
+    run.hist("C04", 4 if q else 6, nslots=2, maxiters=3, docs_per=1 if q else 2)
+    # the same node-set expressions as operands evaluated in place (scalar results): E;E;E...
+    run.hist("C04ops", 3 if q else 4, nslots=2, maxiters=4, docs_per=2 if q else 4, stage="hist-inplace")
+
+
+def run_C12(run):
+    q = run.tier == "quick"
+    # flat paths: exact document order; every node-set expression: protocol
+    run.hist("C12" if q else "C12big", 3 if q else 4, nslots=1, maxiters=2, docs_per=2 if q else 4, stage="hist-flat")
+    run.hist("C04", 4 if q else 5, nslots=1, maxiters=2, docs_per=1, stage="hist-nonflat")
+
+
 def replay_one(run, path):
     rec = json.load(open(path))
     m = rec["mismatch"]
@@ -205,6 +222,8 @@ PROPS = {
     "C01": {"run": run_C01},
     "C02": {"run": run_C02},
     "C03": {"run": run_C03},
+    "C04": {"run": run_C04},
+    "C12": {"run": run_C12},
     "C07": {"run": run_C07},
     "C08": {"run": run_C08},
     "C09": {"run": run_C09},
